@@ -1,6 +1,6 @@
 (* C15 — Reported automaton statistics are truthful. *)
 From DV Require Import Model.Base Model.Nfa Model.BwBuild Model.BwSearch Model.Api Model.Spec
-     Model.Cert Model.Utf8 Model.CwBuild Proofs.StatsProps Proofs.TrieInv Proofs.BuildTrie.
+     Model.Cert Model.Utf8 Model.CwBuild Proofs.StatsProps Proofs.TrieInv Proofs.BuildTrie Model.CwSearch Proofs.BuildStats.
 Local Open Scope N_scope.
 
 (* For a byte-wise automaton that passes the certificate checker, and whose reported state count
@@ -59,6 +59,48 @@ Theorem registered_patterns :
     regd V LeftmostFirst pvs = effective V pvs /\ regd V LeftmostLongest pvs = pvs /\ regd V Standard pvs = pvs.
 Proof. intros V pvs. repeat split. Qed.
 Print Assumptions registered_patterns.
+
+(* C15 IN FULL, for EVERY automaton construction returns -- all three match kinds, any
+   num_free_blocks, both variants (Proofs/BuildStats.v: trie invariant + the double array is an
+   isomorphic copy of the NFA, for every kind): the reported state count is 1 + the number of
+   distinct non-empty prefixes of the registered patterns; every one of those prefixes reaches a
+   state of the finished double array from the root by its own labels; nothing else is reachable;
+   distinct strings reach distinct slots; and the count never exceeds the element count, so
+   12 * num_states <= heap_bytes (byte-wise) and 16 * num_states <= heap_bytes (character-wise). *)
+Theorem bw_statistics_truthful_for_every_built_automaton :
+  forall (V : Type) k nfb (pvs : list (list N * V)) (A : bw_automaton V),
+    (forall p v, In (p, v) pvs -> Forall (fun b => b < 256) p) -> 4 * total_len V pvs <= U32_MAX - 1 ->
+    bw_build_with_values V k nfb pvs = Ok A ->
+    let child := bwc_child (bw_sget V A) in
+    let D := distinct_nonempty_prefixes V (regd V k pvs) in
+    bw_num_states A = 1 + N.of_nat (length D)
+    /\ (forall u, In u D -> exists s, Cert.walk child ROOT u = Some s)
+    /\ (forall w s, Cert.walk child ROOT w = Some s -> w = [] \/ In w D)
+    /\ (forall u1 u2 s, Cert.walk child ROOT u1 = Some s -> Cert.walk child ROOT u2 = Some s -> u1 = u2)
+    /\ bw_num_states A <= bw_num_elements V A.
+Proof. exact bw_stats_universal. Qed.
+Print Assumptions bw_statistics_truthful_for_every_built_automaton.
+
+Theorem cw_statistics_truthful_for_every_built_automaton :
+  forall (V : Type) k nfb (pvs : list (list N * V)) (A : cw_automaton V),
+    4 * total_len V pvs <= U32_MAX - 1 ->
+    cw_build_with_values V k nfb pvs = Ok A ->
+    let child := cwc_child (cw_sget V A) (cw_tget V A) in
+    let D := distinct_nonempty_prefixes V (regd V k pvs) in
+    cw_num_states A = 1 + N.of_nat (length D)
+    /\ (forall u, In u D -> exists s, Cert.walk child ROOT u = Some s)
+    /\ (forall w s, Cert.walk child ROOT w = Some s -> w = [] \/ In w D)
+    /\ (forall u1 u2 s, Cert.walk child ROOT u1 = Some s -> Cert.walk child ROOT u2 = Some s -> u1 = u2)
+    /\ cw_num_states A <= cw_num_elements V A.
+Proof. exact cw_stats_universal. Qed.
+Print Assumptions cw_statistics_truthful_for_every_built_automaton.
+
+Theorem heap_bytes_cover_the_states :
+  forall (V : Type) (osz : N),
+    (forall (A : bw_automaton V), bw_num_states A <= bw_num_elements V A -> 12 * bw_num_states A <= bw_heap_bytes V osz A)
+    /\ (forall (A : cw_automaton V), cw_num_states A <= cw_num_elements V A -> 16 * cw_num_states A <= cw_heap_bytes V osz A).
+Proof. intros V osz. split; intros A H; unfold bw_heap_bytes, cw_heap_bytes, bw_num_elements, cw_num_elements in *; lia. Qed.
+Print Assumptions heap_bytes_cover_the_states.
 
 Definition ex_pvs : list (list N * Z) :=
   [([98; 99; 100], 7%Z); ([97; 98], 8%Z); ([97], 9%Z); ([98], 7%Z); ([97; 98; 99], 1%Z)].
